@@ -166,7 +166,104 @@ def check_C04(ctx):
                   'tld_check off; default and LABELS_ALLOW_UNDERSCORE builds; projection = accept/reject; non-trivial = not rejected as empty',
                   extra_trusted=['libidn2 2.3.3 as IDN oracle (its answers are inputs of the model)'])
 
-CHECKS = {'C02': check_C02, 'C04': check_C04}
+# ------------------------------------------------------------------ C03
+def check_C03(ctx):
+    step_proof(ctx)
+    def project(ln, o):
+        f = o.split(' ')
+        return dec(f[3]) if len(f) >= 4 else o
+    def describe(ln, a, b):
+        return ('decision of is_6531_local (4th field, 0 = accept) differs from the model, which theorem C03_local_part_grammar proves equal to '
+                'strict UTF-8 + the RFC 5321 grammar with non-ASCII characters as atom / quoted-text characters: implementation %s, model %s' % (a, b))
+    nontriv = lambda ln, o: not o.endswith(' -4')
+    n = 6 if ctx.thorough() else 5
+    corr(ctx, 'G-class(len<=%d)' % n, gens.local_class(n), project, exhaustive=True, describe=describe, nontrivial=nontriv,
+         note='all strings over 17 class representatives incl. 2/3/4-byte characters, an overlong lead and a stray continuation byte')
+    corr(ctx, 'G-utf8', gens.utf8_lines(ctx.thorough()), project, exhaustive=True, describe=describe, nontrivial=nontriv,
+         note='all 1- and 2-byte sequences, boundary cover of 3- and 4-byte sequences (all 3-byte sequences with a continuation second byte in thorough), '
+              'each in 13 contexts: atom, next to dots, quoted, escaped, before and after quoted words')
+    corr(ctx, 'G-sweep', gens.local_sweep(), project, exhaustive=True, describe=describe, nontrivial=nontriv)
+    corr(ctx, 'G-random-long', gens.local_random(ctx.rnd, 40000 if not ctx.thorough() else 400000), project, describe=describe, nontrivial=nontriv)
+    # C03_ascii_agrees, on the implementation alone: modes 6531 and 5321 decide identically on pure ASCII
+    lib = ctx.snap.lib()
+    lines = [l for l in gens.local_class(5, alpha=[b'a', b'.', b'"', b'\\', b' ', b'\t', b'(', b'\x01', b'\x7f', b'#'])]
+    c_out, _ = vlib.run_both(lib, ctx.snap, lines)
+    bad = [(l, o) for l, o in zip(lines, c_out) if len(o.split(' ')) == 4 and dec(o.split(' ')[1]) != dec(o.split(' ')[3])]
+    ctx.rep.add_cases('ascii-agreement(6531 vs 5321)', lines, c_out, nontriv, exhaustive=True,
+                      note='relation checked on implementation outputs alone')
+    for l, o in sorted(bad, key=lambda t: len(t[0]))[:3]:
+        ctx.rep.violation({'kind': 'relation', 'relation': 'C03_ascii_agrees_with_5321', 'case': l, 'implementation': o,
+                           'explanation': 'pure-ASCII local part decided differently by is_5321_local (2nd field) and is_6531_local (4th field)'})
+    return finish(ctx, rule='L cases: is_6531_local on byte strings; projection = accept/reject in mode 6531; non-trivial = non-empty input; distinct by case line')
+
+# ------------------------------------------------------------------ C12
+def is_plain_ascii(b):
+    return all(1 <= c <= 127 and c not in (34, 92) for c in b)
+
+def check_C12(ctx):
+    step_proof(ctx)
+    lib = ctx.snap.lib()
+    nontriv = lambda ln, o: not o.startswith(('-16', '-3 ')) and not o.endswith(' -4')
+    full = lambda ln, o: o
+    # (1) plain local parts: four return codes equal -- relation on implementation outputs, and correspondence of all codes
+    alpha = [b'a', b'.', b' ', b'\t', b'\r', b'\n', b'(', b'\x01', b'\x7f', b'#', b'@', b'~']
+    n = 6 if ctx.thorough() else 5
+    lines = gens.local_class(n, alpha=alpha)
+    def rel_plain(ln, o):
+        f = o.split(' ')
+        return len(f) == 4 and len(set(f)) == 1
+    m = corr(ctx, 'plain-local(len<=%d)' % n, lines, full, exhaustive=True, nontrivial=nontriv,
+             describe=lambda ln, a, b: 'return codes of the four scanners on a plain ASCII local part differ from the model (theorem C12_plain_local_parts_agree is about the model): %s vs %s' % (a, b))
+    c_out, _ = vlib.run_both(lib, ctx.snap, lines)
+    for ln, o in sorted([(l, o) for l, o in zip(lines, c_out) if not rel_plain(l, o)], key=lambda t: len(t[0]))[:3]:
+        ctx.rep.violation({'kind': 'relation', 'relation': 'C12_plain_local_parts_agree', 'case': ln, 'implementation': o,
+                           'explanation': 'pure-ASCII local part without DQUOTE/backslash: the four scanners must return the same code (fields: 822 5321 5322 6531)'})
+    # (2) inclusion 5321 in 822 over the full local alphabet
+    lines2 = gens.local_class(5) + gens.local_sweep()
+    m2 = corr(ctx, 'inclusion-5321-822', lines2, lambda ln, o: tuple(dec(x) for x in o.split(' ')[:2]), exhaustive=True, nontrivial=nontriv)
+    c2, _ = vlib.run_both(lib, ctx.snap, lines2)
+    for ln, o in sorted([(l, o) for l, o in zip(lines2, c2) if len(o.split(' ')) == 4 and dec(o.split(' ')[1]) and not dec(o.split(' ')[0])], key=lambda t: len(t[0]))[:3]:
+        ctx.rep.violation({'kind': 'relation', 'relation': 'C12_5321_included_in_822', 'case': ln, 'implementation': o,
+                           'explanation': 'accepted by is_5321_local (2nd field 0) but rejected by is_822_local (1st field)'})
+    # (3) whole addresses: ASCII modes agree on plain local parts; mode 6531 agrees or reports an IDN error; same domain verdict
+    addrs = gens.addr_class(5 if ctx.thorough() else 4) + gens.addr_structured() + gens.addr_boundary()
+    orc = vlib.idn_oracle(gens.domains_of(addrs))
+    elines = gens.e_lines(addrs, orc)
+    corr(ctx, 'addresses', elines, lambda ln, o: ' '.join(o.split(' ')[:3]), nontrivial=nontriv, exhaustive=False,
+         describe=lambda ln, a, b: 'result (rc, idn_rc, flags) of is_<mode>_email differs from the model the C12 theorems are about: %s vs %s' % (a, b))
+    c3, _ = vlib.run_both(lib, ctx.snap, elines)
+    by_addr = {}
+    for ln, o in zip(elines, c3):
+        f = ln.split(' ')
+        by_addr.setdefault((f[3], f[2]), {})[int(f[1])] = o.split(' ')
+    viol = 0
+    for (ah, t), res in by_addr.items():
+        if len(res) < 4 or viol >= 3: continue
+        a = bytes.fromhex(ah) if ah != '-' else b''
+        i = a.rfind(b'@')
+        local = a[:i] if i >= 0 else a
+        rcs = [res[m][0] for m in range(4)]
+        ok_ascii = [m for m in range(3) if res[m][0] != '' and int(res[m][0]) >= 0 or (res[m][0].lstrip('-').isdigit() and int(res[m][0]) <= -16 and int(res[m][0]) != -16)]
+        # domain verdict: among ASCII modes whose local part passed (rc not a local-part / basic code), rc and flags must be equal
+        passed = [m for m in range(3) if res[m][0].lstrip('-').isdigit() and not (-16 <= int(res[m][0]) <= -3 and int(res[m][0]) != -16) ]
+        passed = [m for m in range(3) if res[m][0].lstrip('-').isdigit() and int(res[m][0]) not in range(-15, -2)]
+        vals = set((res[m][0], res[m][2]) for m in passed)
+        if len(vals) > 1:
+            viol += 1
+            ctx.rep.violation({'kind': 'relation', 'relation': 'C12_domain_verdict_mode_independent', 'address': ah, 'tld_check': t,
+                               'implementation': {str(m): ' '.join(res[m]) for m in range(4)},
+                               'explanation': 'ASCII modes whose local-part scanner accepted report different domain verdict / class / flags'})
+        if is_plain_ascii(a) and is_plain_ascii(local) and all(c < 128 for c in a):
+            if len(set((res[m][0], res[m][2]) for m in range(3))) > 1 or (res[3][0] != res[0][0] and res[3][0] != '-2'):
+                viol += 1
+                ctx.rep.violation({'kind': 'relation', 'relation': 'C12_plain_addresses_agree', 'address': ah, 'tld_check': t,
+                                   'implementation': {str(m): ' '.join(res[m]) for m in range(4)},
+                                   'explanation': 'pure-ASCII address without DQUOTE/backslash: the four modes must give the same code (mode 6531 may give the IDN error -2 instead)'})
+    return finish(ctx, rule='L and E cases in all four modes; relations (equal codes on plain ASCII, 5321 within 822, mode-independent domain verdict) are evaluated on the '
+                  'implementation outputs alone, and the outputs are compared with the model; non-trivial = not an empty part',
+                  extra_trusted=['libidn2 2.3.3 as IDN oracle'])
+
+CHECKS = {'C12': check_C12, 'C03': check_C03, 'C02': check_C02, 'C04': check_C04}
 
 def main():
     if len(sys.argv) >= 3 and sys.argv[1] == 'replay':
